@@ -383,11 +383,18 @@ def _c07_post(st, tier):
                     v.append(('uniform/hist/byte%d' % b, 'uniform torus draws: byte %d takes value %d with relative frequency %.5f (flat = 1, tolerance %.5f)' % (b, x, h, htol))); break
         ones = st.get('sum_keybit/ones', 0) / n
         if abs(ones - 0.5) > max(1e-4, 4 / math.sqrt(n)): v.append(('keybit/frequency', 'key bits over %d states: frequency of 1 is %.6f' % (n, ones)))
+    # key-switching row noise pooled over all keys and seeds of one (t, basebit, alpha) shape
+    for k in sorted(st):
+        if k.startswith('sum_ksnoise/') and k.endswith('/n'):
+            pfx = k[4:-2]; n = st[k]
+            if n < 2000: continue
+            alpha = float(pfx.split('alpha=')[1]); au = alpha * 2.0**32; mean = st['sum_' + pfx + '/s1'] / n; sd = math.sqrt(max(st['sum_' + pfx + '/s2'] / n - mean * mean, 0)); band = 8 * au / math.sqrt(2 * n) + 1.5
+            if abs(sd - au) > band: v.append((pfx, 'key-switching rows pooled over keys (%d rows, %s): error stdev %.2f units, configured %.2f (allowed deviation %.2f)' % (n, pfx, sd, au, band)))
     return v
 def _c07(tier, seed):
     q = tier == 'quick'
     jobs = J('c07.cpp', 'optim', 'spqlios-fma', n=(8 if q else 16), args=['part=states'], ldflags='-ldl', deadline=(100 if q else 2400), timeout=(300 if q else 3000))
-    jobs += J('c07.cpp', 'optim', 'spqlios-fma', n=(5 if q else 8), args=['part=objects'], ldflags='-ldl', deadline=(100 if q else 2400), timeout=(300 if q else 3000))
+    jobs += J('c07.cpp', 'optim', 'spqlios-fma', n=(6 if q else 8), args=['part=objects'] + (['K=4'] if q else []), ldflags='-ldl', deadline=(100 if q else 2400), timeout=(300 if q else 3000))
     jobs += J('c07.cpp', 'optim', 'spqlios-fma', n=3, args=['part=seeding'], ldflags='-ldl')
     if not q:
         jobs += J('c07.cpp', 'optim', 'fftw', n=6, args=['part=objects', 'K=2'], ldflags='-ldl', deadline=2400, timeout=3000) + J('c07.cpp', 'debug', 'nayuki-portable', n=3, args=['part=seeding'], ldflags='-ldl')
